@@ -733,6 +733,15 @@ func TestDebugUpgraderFaithful(t *testing.T) {
 			req = append(append(req[:len(req)-2:len(req)-2], fmt.Sprintf("Content-Length: %d\r\n\r\n", k)...), bytes.Repeat([]byte{'B'}, k)...)
 			hx.Class("debug-upgrader/request-with-body")
 		}
+		if nl := rapid.IntRange(0, 5).Draw(t, "bareLF"); nl <= 1 {
+			// a client that ends its lines with a bare LF, all of them or only the last two (the upgrader accepts both)
+			if nl == 0 {
+				req = bytes.ReplaceAll(req, []byte("\r\n"), []byte("\n"))
+			} else if i := bytes.Index(req, []byte("\r\n\r\n")); i >= 0 {
+				req = append(append(req[:i:i], "\n\n"...), req[i+4:]...)
+			}
+			hx.Class("debug-upgrader/bare-lf-request")
+		}
 		chunks := gen.Chunks(t, "chunks")
 		plainRec := tx.NewRec()
 		dbgRec := tx.NewRec()
